@@ -16,8 +16,9 @@ Decided statically:
  (The EXECUTE re-sent after a re-prepare keeps the paging state: C14.R2.)
 Not decided: channel FIFO semantics, row order inside a page, fault interleavings.
 """
+from ..inline import inline_view
 from ..mir import AnchorLost
-from ..util import df_of, fn_short, in_set, backward_slice, operand_path, path_last, switch_on, switch_edges, field_writers
+from ..util import bool_edges, dj_of, df_of, fn_short, in_set, backward_slice, operand_path, path_last, switch_on, switch_edges, field_writers
 from .c20 import slice_fields
 
 PG = "scylla::client::pager::"
@@ -162,7 +163,8 @@ def producer(r, facts, pat, fetch_name, tag, more_edge):
     for c in ie:
         for sw in switch_on(b, df, ("call", c.bb)):
             edges, other = switch_edges(b, sw)
-            fail_tg = (other if 0 in edges else edges.get(1)) if c.name.endswith("is_err") else edges.get(0)
+            tt, ff = bool_edges(b, sw)
+            fail_tg = tt if c.name.endswith("is_err") else ff
             if fail_tg is not None and F.bb not in b.reachable_from(fail_tg):
                 good = True
     r.instance(tag + ":closed-channel-stops", good, "if the consumer is gone (send failed) the producer must stop", S.span)
@@ -191,9 +193,11 @@ def more_edge_session(r, b, df, F, S, tag):
         missing = list(allv - set(names))
         if len(missing) == 1:
             names[missing[0]] = t[3]
-    r.instance(tag + ":no-more-pages-stops", "NoMorePages" in names and F.bb not in b.reachable_from(names["NoMorePages"]), "NoMorePages must end the producer", b.term_span(sws[0]))
+    # feasibility-aware reachability: the outcome may first be stored in a boolean (`matches!(..)`) and branched on later
+    dj = dj_of(b, df.facts)
+    r.instance(tag + ":no-more-pages-stops", "NoMorePages" in names and F.bb not in dj.feasible_reach_edge(sws[0], names["NoMorePages"]), "NoMorePages must end the producer", b.term_span(sws[0]))
     cut = [(sws[0], names.get("MorePages"))]
-    r.instance(tag + ":loop-only-via-more-pages", F.bb not in b.reachable_after(F.bb, removed_edges=cut), "the loop may continue only through the MorePages outcome", b.term_span(sws[0]))
+    r.instance(tag + ":loop-only-via-more-pages", F.target is not None and F.bb not in dj.feasible_reach_edge(F.bb, F.target, removed_edges=cut), "the loop may continue only through the MorePages outcome", b.term_span(sws[0]))
 
 
 def more_edge_cc(r, b, df, F, S, tag):
@@ -205,7 +209,7 @@ def more_edge_cc(r, b, df, F, S, tag):
         raise AnchorLost(tag + ": ControlFlow result not matched once")
     edges, other = switch_edges(b, sws[0])
     brk = edges.get(1, other)
-    cont = edges.get(0)
+    cont = edges.get(0, other if 1 in edges else None)
     r.instance(tag + ":break-stops", F.bb not in b.reachable_from(brk), "ControlFlow::Break must end the producer", b.term_span(sws[0]))
     r.instance(tag + ":loop-only-via-continue", F.bb not in b.reachable_after(F.bb, removed_edges=[(sws[0], cont)]), "the loop may continue only through ControlFlow::Continue", b.term_span(sws[0]))
 
@@ -275,7 +279,7 @@ def r6(ctx, facts):
 
 
 def check(ctx):
-    facts = ctx.facts("default")
+    facts = inline_view(ctx.facts("default"))
     for fn in (r1, r2, r3, r4, r5, r6):
         try:
             fn(ctx, facts)
